@@ -24,10 +24,14 @@ type Scenario struct {
 	J    int  // Byzantine leader's PRECOMMIT justification: 0 the certificate it just aggregated; 1 a REPLAYED certificate: the first certificate of the first certified block (other round, possibly other results) under the current message header
 	S    int  // 2: like 1, and its ELECTION_VOTE reaches the elected leader FIRST, reporting the highest lock certificate seen on the network with a root-chain build height nobody accepts (World.lockVeto); 1: the Byzantine node additionally spams every honest node, after every timer generation, with an absurd pacemaker claim and a far-future ELECTION_VOTE (World.Spam)
 	U    int  // 1: the Byzantine node is NOT this round's elected leader but acts as one (mode L) with a REPLAYED election certificate: the +2/3 ELECTION_VOTE certificate of an earlier round of this root height in which it was elected; its PROPOSE follows the elected leader's
+	T    int  // late delivery (Late configurations): 1 every PROPOSE, 2 every PRECOMMIT, 3 every COMMIT that the other choices let through reaches its recipient only AFTER the recipient's next phase timer fired - too late to be voted on / locked on / committed, but stored
 	L    int  // Byzantine leader: 0 honest; 1,2 re-proposes known certificate 0/1 with that certificate as HighQc; 3 proposes a fresh block with no justification; 4 equivocates (X to one half of the honest nodes, X' to the other); 5,6 like 1,2 with the latest certificate; 7 equivocates on the certificate RESULTS only (same block, results R / R'); 8 proposes the first certified block again with OTHER results and no justification; 9 proposes one fresh block to everybody but the first live honest node's copy carries another (unsigned) root-chain build height
 }
 
 func (s Scenario) String() string {
+	if s.T != 0 {
+		return fmt.Sprintf("{bump:%v E:%d P:%d Q1:%d Q2:%d V:%d L:%d T:%d}", s.Bump, s.E, s.P, s.Q1, s.Q2, s.V, s.L, s.T)
+	}
 	if s.U != 0 {
 		return fmt.Sprintf("{bump:%v E:%d P:%d Q1:%d Q2:%d V:%d L:%d U:%d}", s.Bump, s.E, s.P, s.Q1, s.Q2, s.V, s.L, s.U)
 	}
@@ -64,6 +68,7 @@ type roundCtx struct {
 	disabled bool // scenario not applicable (e.g. L>0 but the Byzantine node does not lead)
 	minQ     map[int]bool
 	vetoSent bool
+	held     []*Envelope // late delivery: released after the next timer generation fired
 }
 
 // RunRound executes one whole round on the real nodes under scenario sc.
@@ -135,9 +140,18 @@ func (w *World) RunRound(sc Scenario) (ok bool) {
 			w.puppet(rc, genPhase)
 			rc.sent = append(rc.sent, w.Pending[mark2:]...)
 		}
-		// deliver what this generation produced
+		// late messages of the previous generation arrive now: their recipients' timers have just fired
 		pend := w.Pending
 		w.Pending = nil
+		for _, e := range rc.held {
+			w.tracef("LATE arrival %s n%d->n%d", e.Kind, e.From, e.To)
+			_ = w.Deliver(e)
+		}
+		rc.held = nil
+		// (a late arrival produces no message: leader messages are stored, votes are sent on timers)
+		pend = append(pend, w.Pending...)
+		w.Pending = nil
+		// deliver what this generation produced
 		for _, e := range pend {
 			if rc.leader < 0 && e.Kind == KElectionVote {
 				rc.leader = e.To
@@ -160,6 +174,12 @@ func (w *World) RunRound(sc Scenario) (ok bool) {
 				w.lockVeto(rc)
 			}
 			if w.allow(rc, e) {
+				if (sc.T == 1 && e.Kind == KPropose) || (sc.T == 2 && e.Kind == KPrecommit) || (sc.T == 3 && e.Kind == KCommit) {
+					if e.From != e.To {
+						rc.held = append(rc.held, e)
+						continue
+					}
+				}
 				_ = w.Deliver(e)
 			}
 		}
